@@ -291,6 +291,109 @@ func rulesC05(p *Prog, r *Report) {
 		}
 	}
 
+	// R05.3b: on a path that hands out an amount (fills orders) the carried remaining amount must change
+	{
+		fillMay := p.NewMay(func(c ssa.CallInstruction, callee *ssa.Function) bool { return callee == fill })
+		for _, fn := range p.Funcs {
+			if short(fnPkgPath(fn)) != "x/liquidity/amm" || p.isAuxFn(fn) {
+				continue
+			}
+			for li, l := range loopsOf(fn) {
+				for _, in := range l.Head.Instrs {
+					ph, ok := in.(*ssa.Phi)
+					if !ok || !strings.HasSuffix(ph.Type().String(), "math.Int") {
+						continue
+					}
+					// is it a decreasing accumulator at all (some in-loop Sub / zero assignment)?
+					isAcc := false
+					for i, e := range ph.Edges {
+						if l.Body[l.Head.Preds[i]] {
+							for _, alt := range phiAlternatives(e) {
+								if op, _, _, ok := addSubOf(alt); ok && op == "Sub" {
+									isAcc = true
+								}
+								if isZeroValue(alt) {
+									isAcc = true
+								}
+							}
+						}
+					}
+					if !isAcc {
+						continue
+					}
+					// every merge inside the loop: an incoming edge carrying the UNCHANGED accumulator must not come
+					// from a branch that filled orders
+					for b := range l.Body {
+						for _, in2 := range b.Instrs {
+							mp, ok := in2.(*ssa.Phi)
+							if !ok {
+								break
+							}
+							involves := false
+							for _, e := range mp.Edges {
+								if e == ph {
+									involves = true
+								}
+							}
+							if !involves || (mp != ph && !flowsToPhi(mp, ph, l)) {
+								continue
+							}
+							for i, e := range mp.Edges {
+								if e != ph || !l.Body[b.Preds[i]] {
+									continue
+								}
+								// walk back along the single-predecessor chain of that branch
+								filled := false
+								for cur := b.Preds[i]; cur != nil && l.Body[cur]; {
+									for _, in3 := range cur.Instrs {
+										if c, ok := in3.(ssa.CallInstruction); ok && fillMay.Call(c) {
+											filled = true
+										}
+									}
+									if len(cur.Preds) != 1 {
+										break
+									}
+									cur = cur.Preds[0]
+								}
+								r.Instance("R05.3")
+								construct := fmt.Sprintf("%s loop#%d accumulator %s unchanged on a branch", fname(fn), li+1, ph.Comment)
+								if filled {
+									r.Fail("R05.3", construct, "on a branch that fills orders the remaining-amount accumulator is carried over unchanged: the amount just handed out is offered again to the next group (more base coin is traded on this side than on the other)", p.instrPos(b.Preds[i].Instrs[len(b.Preds[i].Instrs)-1]), nil)
+								} else {
+									r.OK("R05.3", construct, "unchanged only on a branch that fills nothing", p.instrPos(b.Preds[i].Instrs[len(b.Preds[i].Instrs)-1]))
+								}
+							}
+						}
+					}
+				}
+			}
+		}
+	}
+
+	// R05.6 the amm order handed to matching is capped by what the order still has in escrow
+	r.Rule("R05.6", "the matching engine's view of a user order is built from OpenAmount and RemainingOfferCoin", 1)
+	{
+		fn := p.MustFunc("x/liquidity/types.NewUserOrder")
+		r.FuncsSeen[fname(fn)] = true
+		for _, c := range calls(fn) {
+			if !p.callIs(c, "NewBaseOrder") {
+				continue
+			}
+			args := c.Common().Args
+			if len(args) < 4 {
+				continue
+			}
+			r.Instance("R05.6")
+			okAmt := p.fromRecordFieldsLoose(args[2], map[string]bool{"Order": true}, map[string]bool{"OpenAmount": true})
+			okOffer := p.fromRecordFieldsLoose(args[3], map[string]bool{"Order": true}, map[string]bool{"RemainingOfferCoin": true}) && !p.fromRecordFieldsLoose(args[3], map[string]bool{"Order": true}, map[string]bool{"OfferCoin": true})
+			if okAmt && okOffer {
+				r.OK("R05.6", fname(fn)+" NewBaseOrder", "amount from OpenAmount, offer-coin cap from RemainingOfferCoin", p.instrPos(c))
+			} else {
+				r.Fail("R05.6", fname(fn)+" NewBaseOrder", fmt.Sprintf("the order given to the matching engine is not built from the stored OpenAmount (%v) and RemainingOfferCoin (%v): a partially filled order can be matched for more than it still has in escrow", okAmt, okOffer), p.instrPos(c), nil)
+			}
+		}
+	}
+
 	// R05.4 ------------------------------------------------------------------------
 	r.Rule("R05.4", "an order stays in the matched set only if it is a buy or its share buys a positive quote amount", 1)
 	{
@@ -634,4 +737,32 @@ func paramName(v ssa.Value) string {
 		}
 	}
 	return ""
+}
+
+// flowsToPhi: merge phi mp feeds (possibly through further merges) the loop-carried phi ph.
+func flowsToPhi(mp, ph *ssa.Phi, l *Loop) bool {
+	seen := map[ssa.Value]bool{}
+	var rec func(v ssa.Value, d int) bool
+	rec = func(v ssa.Value, d int) bool {
+		if v == nil || seen[v] || d > 8 {
+			return false
+		}
+		seen[v] = true
+		refs := v.Referrers()
+		if refs == nil {
+			return false
+		}
+		for _, ref := range *refs {
+			if x, ok := ref.(*ssa.Phi); ok {
+				if x == ph {
+					return true
+				}
+				if rec(x, d+1) {
+					return true
+				}
+			}
+		}
+		return false
+	}
+	return rec(mp, 0)
 }
